@@ -215,46 +215,78 @@ static const int CLENS[10] = {0, 1, 2, 15, 16, 17, 31, 32, 33, 49};
 static uint8_t IVS[24][16]; static int nivs;
 static uint64_t ctr_seqs;
 
-static void ctr_sequence(int cls, int iv, const int *seq, int n, int rekey_after)
+/* csize: the counter size (setCounterSize) in force, set explicitly in every sequence because it is configuration
+ * that survives clear(), setKey() and setIV(); cswhen: 0 = before setKey, 1 = after setIV (the documented order),
+ * 2 = between setKey and setIV.  With the default size 16 the reference is the C library's CTR object (generic back
+ * end); with a shorter one it is in xor E(c_i) computed with the C library's block function, c_i incremented inside
+ * the last csize bytes only ("only the last size bytes are relevant when incrementing"). */
+static void ctr_sequence(int cls, int iv, const int *seq, int n, int rekey_after, int csize, int cswhen)
 {
     CTRCommon *a = ctr_of(cls); CtrObj co; static uint8_t in[256], oa[256], oc[256]; size_t pos = 0; int i; bool ok = true;
+    Skinny128Key_t mk; Skinny128TweakedKey_t mtk; const Skinny128Key_t *ks = CTR_TWEAKED[cls] ? &mtk.ks : &mk;
+    uint8_t mctr[16], mbuf[16]; int mpos = 16;
     arena_reset(); memset(&co, 0, sizeof(co));
     a->clear();
+    if (cswhen == 0) ok &= a->setCounterSize((size_t)csize);
     ok &= a->setKey(KEYS[cls & 1], (size_t)CTR_KLEN[cls]);
+    if (cswhen == 2) ok &= a->setCounterSize((size_t)csize);
     ok &= a->setIV(IVS[iv], 16);
-    if (a->setKey(KEYS[0], (size_t)CTR_KLEN[cls] + 1) || a->setIV(IVS[1], 15)) ok = false;      /* wrong lengths: false, nothing changes */
+    if (cswhen == 1) ok &= a->setCounterSize((size_t)csize);
+    if (a->setKey(KEYS[0], (size_t)CTR_KLEN[cls] + 1) || a->setIV(IVS[1], 15) || a->setCounterSize(0) || a->setCounterSize(17)) ok = false;      /* wrong lengths / sizes: false, nothing changes */
     ctr_init(CK_S128, BE_GEN, &co);
-    if (CTR_TWEAKED[cls]) ctr_set_tweaked_key(CK_S128, &co, KEYS[cls & 1], (unsigned)CTR_KLEN[cls]); else ctr_set_key(CK_S128, &co, KEYS[cls & 1], (unsigned)CTR_KLEN[cls], 0);
+    if (CTR_TWEAKED[cls]) { ctr_set_tweaked_key(CK_S128, &co, KEYS[cls & 1], (unsigned)CTR_KLEN[cls]); skinny128_set_tweaked_key(&mtk, KEYS[cls & 1], (unsigned)CTR_KLEN[cls]); }
+    else { ctr_set_key(CK_S128, &co, KEYS[cls & 1], (unsigned)CTR_KLEN[cls], 0); skinny128_set_key(&mk, KEYS[cls & 1], (unsigned)CTR_KLEN[cls]); }
     ctr_set_counter(CK_S128, &co, IVS[iv], 16);
+    memcpy(mctr, IVS[iv], 16);
     lcg_fill(in, sizeof(in), 321);
     for (i = 0; i < n; ++i) {
-        a->encrypt(oa + pos, in + pos, (size_t)seq[i]);
-        ctr_encrypt(CK_S128, &co, oc + pos, in + pos, (size_t)seq[i]);
+        if ((i & 1) && csize != 16) a->decrypt(oa + pos, in + pos, (size_t)seq[i]); else a->encrypt(oa + pos, in + pos, (size_t)seq[i]);
+        if (csize == 16) ctr_encrypt(CK_S128, &co, oc + pos, in + pos, (size_t)seq[i]);
+        else {
+            int j, k;
+            for (j = 0; j < seq[i]; ++j) {
+                if (mpos >= 16) {
+                    unsigned carry = 1;
+                    skinny128_ecb_encrypt(mbuf, mctr, ks);
+                    for (k = 15; k >= 16 - csize; --k) { carry += mctr[k]; mctr[k] = (uint8_t)carry; carry >>= 8; }
+                    mpos = 0;
+                }
+                oc[pos + (size_t)j] = in[pos + (size_t)j] ^ mbuf[mpos++];
+            }
+        }
         pos += (size_t)seq[i];
         if (i == rekey_after) {
             /* key change in the middle of the stream, no new IV: both sides must continue the same way */
             ok &= a->setKey(KEYS[!(cls & 1)], (size_t)CTR_KLEN[cls]);
-            if (CTR_TWEAKED[cls]) ctr_set_tweaked_key(CK_S128, &co, KEYS[!(cls & 1)], (unsigned)CTR_KLEN[cls]); else ctr_set_key(CK_S128, &co, KEYS[!(cls & 1)], (unsigned)CTR_KLEN[cls], 0);
+            if (CTR_TWEAKED[cls]) { ctr_set_tweaked_key(CK_S128, &co, KEYS[!(cls & 1)], (unsigned)CTR_KLEN[cls]); skinny128_set_tweaked_key(&mtk, KEYS[!(cls & 1)], (unsigned)CTR_KLEN[cls]); }
+            else { ctr_set_key(CK_S128, &co, KEYS[!(cls & 1)], (unsigned)CTR_KLEN[cls], 0); skinny128_set_key(&mk, KEYS[!(cls & 1)], (unsigned)CTR_KLEN[cls]); }
+            mpos = 16;     /* buffered keystream of the old key is discarded, the counter runs on */
         }
     }
     ctr_cleanup(CK_S128, &co);
     ++ctr_seqs; ++g_cnt.evaluations;
-    distinct_add_u64(fnv1a(oa, pos, fnv1a(seq, sizeof(int) * (size_t)n, (uint64_t)(cls * 100 + iv))));
+    distinct_add_u64(fnv1a(oa, pos, fnv1a(seq, sizeof(int) * (size_t)n, (uint64_t)(cls * 100 + iv) + (uint64_t)(csize * 7 + cswhen) * 1000)));
     if (!ok || memcmp(oa, oc, pos) != 0) {
-        char sig[160], cd[200]; size_t o = (size_t)snprintf(cd, sizeof(cd), "c19c %d %d %d", cls, iv, rekey_after), d = 0;
+        char sig[160], cd[200]; size_t o = (size_t)snprintf(cd, sizeof(cd), "c19c %d %d %d %d %d", cls, iv, rekey_after, csize, cswhen), d = 0;
         for (i = 0; i < n; ++i) o += (size_t)snprintf(cd + o, sizeof(cd) - o, " %d", seq[i]);
         while (d < pos && oa[d] == oc[d]) ++d;
-        snprintf(sig, sizeof(sig), "C19/CTR<%s>/%s", VNAME[cls], !ok ? "return-values" : (rekey_after >= 0 ? "stream-after-mid-stream-setKey" : "stream"));
-        violation(sig, cd, "CTR<%s> with IV %s: %s (first differing byte %zu of %zu)", VNAME[cls], hexs(IVS[iv], 16),
-                  ok ? "output differs from skinny128_ctr_encrypt on the generic back end" : "setKey/setIV return values wrong", d, pos);
+        snprintf(sig, sizeof(sig), "C19/CTR<%s>/%s%s", VNAME[cls], !ok ? "return-values" : (rekey_after >= 0 ? "stream-after-mid-stream-setKey" : "stream"), csize != 16 ? "/short-counter" : (cswhen != 1 ? "/counter-size-set-early" : ""));
+        violation(sig, cd, "CTR<%s> with IV %s, setCounterSize(%d) %s: %s (first differing byte %zu of %zu)", VNAME[cls], hexs(IVS[iv], 16), csize,
+                  cswhen == 0 ? "before setKey" : (cswhen == 1 ? "after setIV" : "between setKey and setIV"),
+                  ok ? (csize == 16 ? "output differs from skinny128_ctr_encrypt on the generic back end" : "output differs from in xor E(c_i) with the C library's block function, c_i incremented in the last bytes only")
+                     : "setKey/setIV/setCounterSize return values wrong", d, pos);
     }
 }
 
+static const int CSIZES[5] = {16, 1, 2, 4, 15};
 static void ctr_dfs(int cls, int iv, int *seq, int n, int consumed, int maxd)
 {
-    int i;
-    if (n > 0) ctr_sequence(cls, iv, seq, n, -1);
-    if (n >= 2) ctr_sequence(cls, iv, seq, n, 0);
+    int i, cs, w;
+    if (n > 0) for (cs = 0; cs < 5; ++cs) for (w = 0; w < 3; ++w) {
+        if (CSIZES[cs] != 16 && n == 3 && !tier_thorough() && w == 2) continue;
+        ctr_sequence(cls, iv, seq, n, -1, CSIZES[cs], w);
+        if (n >= 2) ctr_sequence(cls, iv, seq, n, 0, CSIZES[cs], w);
+    }
     if (n >= maxd || consumed > 50) return;
     for (i = 0; i < 10; ++i) { seq[n] = CLENS[i]; ctr_dfs(cls, iv, seq, n + 1, consumed + CLENS[i], maxd); }
 }
@@ -268,9 +300,10 @@ static void run_ctr(void)
     for (k = 1; k < 16; ++k) { memset(IVS[nivs], 0, 16); memset(IVS[nivs] + 16 - k, 0xFF, (size_t)k); ++nivs; }
     memset(IVS[nivs], 0xFF, 16); IVS[nivs++][15] = 0xFE;
     if (g_opts.replay) {
-        int n = 0, rk; const char *p = g_opts.replay + 5; cls = atoi(p); p = strchr(p, ' ') + 1; iv = atoi(p); p = strchr(p, ' ') + 1; rk = atoi(p);
+        int n = 0, rk, cs, w; const char *p = g_opts.replay + 5; cls = atoi(p); p = strchr(p, ' ') + 1; iv = atoi(p); p = strchr(p, ' ') + 1; rk = atoi(p);
+        p = strchr(p, ' ') + 1; cs = atoi(p); p = strchr(p, ' ') + 1; w = atoi(p);
         while ((p = strchr(p, ' ')) != NULL) { ++p; seq[n++] = atoi(p); if (n >= 8) break; }
-        ctr_sequence(cls, iv, seq, n, rk);
+        ctr_sequence(cls, iv, seq, n, rk, cs, w);
         return;
     }
     for (cls = 0; cls < 5; ++cls) for (iv = 0; iv < nivs; ++iv, ++job) {
